@@ -47,6 +47,7 @@ for it in items:
     if it["mode"] == "verify":
         verified.setdefault(it["sel"], []).append(it)
 write = "--write" in sys.argv
+src_pref = [a.split("=",1)[1] for a in sys.argv[1:] if a.startswith("--from=")]
 only = [a for a in sys.argv[1:] if not a.startswith("--")]
 bad = 0
 edits = {}
@@ -55,8 +56,9 @@ for it in items:
         continue
     if only and not any(o in it["file"] for o in only):
         continue
-    v = verified[it["sel"]][0]
-    if strip_comments(it["lines"]) != strip_comments(v["lines"]):
+    vs = verified[it["sel"]]
+    v = next((w for w in vs if any(p in w["file"] for p in src_pref)), vs[0])
+    if all(strip_comments(it["lines"]) != strip_comments(w["lines"]) for w in vs):
         bad += 1
         print("DIFF %s %s: stub in %s differs from verified contract in %s" % (it["sel"][0], it["sel"][1], os.path.relpath(it["file"], root), os.path.relpath(v["file"], root)))
         if write:
